@@ -34,7 +34,8 @@ func init() {
 // concurrent tasks released one at a time at the mux's Yield sites; the step-stamped history is checked for
 // linearizability against the same model with porcupine.
 
-var c12Ufrags = []string{"ufa", "ufb", "ufc", "ufd"}
+// (one ufrag is a proper prefix of another: they are different ufrags all the same)
+var c12Ufrags = []string{"ufa", "ufab", "ufc", "ufd"}
 
 // canonical remote endpoints (index = model address index); 0..2 IPv4, 3..4 IPv6
 var c12Remotes = []netip.AddrPort{
